@@ -64,7 +64,8 @@ def run(ctx: Ctx) -> None:
     for a, b in zip(runs[0::2], runs[1::2]):
         ea, eb = e2e.first(a["events"], "Export"), e2e.first(b["events"], "Export")
         if a["hung"] or b["hung"]:
-            raise MachineryError(f"end-to-end run hung: {a['cfg']}")
+            ctx.drift.append(f"end-to-end run exceeded the time limit and was skipped: {a['cfg']}")
+            continue
         if ea is None or eb is None:
             ctx.drift.append(f"pair without export: {a['cfg']}")
             continue
